@@ -506,4 +506,107 @@ def run(ctx):
                "looked up only after the pre-handle listeners had their say")
     ctx.borrow("c13", "C13-R11", "C09-R17", "the help switch 'prints that command's help ... with status 0' whatever else the line lacks: the lenient mode switched on for the help request governs the parse "
                "that is handed on (a result parsed strictly during resolution is not reused)")
+    # ---------------------------------------------------------------- R18
+    r = ctx.rule("C09-R18", "GUARD", "'any subset of the global switches': what one switch does is not conditional on another switch being absent - in create_io each effect (quiet, "
+                 "non-interactive, verbosity, formatter) is governed by the spellings of one switch family only", reference=3)
+
+    def family(tok):
+        t = tok.lstrip("-")
+        if t in ("q", "quiet"):
+            return "quiet"
+        if t in ("n", "no-interaction"):
+            return "interaction"
+        if t in ("ansi", "no-ansi"):
+            return "ansi"
+        if t == "verbose" or (t and set(t) == {"v"}):
+            return "verbosity"
+        return t
+
+    cio = dac.methods.get("create_io")
+    ctx.require(cio is not None, "DefaultApplicationConfig.create_io missing")
+    ms18 = [cio] + [h for h in dac.methods.values() if h is not cio and any(isinstance(c.func, ast.Attribute) and c.func.attr == h.name for c in q.calls(cio))]
+    n18 = 0
+    for m in ms18:
+        cfg = ctx.cfg(m)
+        for c in q.calls(m):
+            if not (isinstance(c.func, ast.Attribute) and c.func.attr in ("set_quiet", "set_interactive", "set_verbosity")):
+                continue
+            fams = {}
+            for cn in cfg.nodes_of(c):
+                for e in cfg.nodes:
+                    if e.kind in ("T", "F") and e.ast is not None and cfg.dominates(e.id, cn.id):
+                        for x in walk_no_nested(e.ast):
+                            if isinstance(x, ast.Call) and isinstance(x.func, ast.Attribute) and x.func.attr == "has_option_token" and x.args and isinstance(x.args[0], ast.Constant):
+                                fams.setdefault(family(x.args[0].value), []).append((e, x))
+            n18 += 1
+            own = {"set_quiet": "quiet", "set_interactive": "interaction", "set_verbosity": "verbosity"}[c.func.attr]
+            other = sorted(f for f in fams if f != own)
+            if not other:
+                r.ok("%s: %s governed by the %s switch only" % (m.short, norm(c)[:40], own))
+            else:
+                e, x = fams[other[0]][0]
+                r.fail(m, c, "%s depends on the %s switch" % (norm(c)[:40], other[0]), "%s reaches %s only when %s is %s: with both switches on the line (in any order or spelling) the %s switch "
+                       "is ignored" % (m.short, norm(c), norm(x), "given" if e.kind == "T" else "absent", own))
+    ctx.require(n18 >= 2, "create_io no longer applies the quiet / no-interaction / verbosity switches")
+
+    # ---------------------------------------------------------------- R19
+    r = ctx.rule("C09-R19", "TABLE", "'-v / -vv / -vvv': the level predicates of an output are thresholds - is_<level>() is `verbosity >= <LEVEL>` for every level below the highest "
+                 "(what is written at -vv is also written at -vvv, and the handler is told so)", reference=3)
+    out18 = ctx.cls("clikit.api.io.output.Output")
+    lv = {}
+    for nm_, v_ in out18.module.assigns.items():
+        pass
+    flags_mod = p.modules.get("clikit.api.io.flags")
+    levels = {}
+    if flags_mod is not None:
+        for nm_, v_ in flags_mod.assigns.items():
+            if isinstance(v_, ast.Constant) and isinstance(v_.value, int) and nm_ in ("NORMAL", "VERBOSE", "VERY_VERBOSE", "DEBUG"):
+                levels[nm_] = v_.value
+    ctx.require(len(levels) >= 3, "verbosity level constants not found in clikit.api.io.flags")
+    top = max(levels, key=lambda k: levels[k])
+    for nm_, m in sorted(out18.methods.items()):
+        if not nm_.startswith("is_") or nm_[3:].upper() not in levels:
+            continue
+        want = nm_[3:].upper()
+        rets = q.returns(m)
+        ok_ = False
+        got = None
+        for ret in rets:
+            v = ret.value
+            if isinstance(v, ast.Compare) and len(v.ops) == 1 and is_self_attr(v.left) and isinstance(v.comparators[0], ast.Name):
+                got = (type(v.ops[0]).__name__, v.comparators[0].id)
+                if v.comparators[0].id == want and (isinstance(v.ops[0], ast.GtE) or (isinstance(v.ops[0], ast.Eq) and want == top)):
+                    ok_ = True
+                elif isinstance(v.ops[0], ast.Gt) and levels.get(v.comparators[0].id) == levels[want] - 1:
+                    ok_ = True
+        if ok_:
+            r.ok("Output.%s: threshold at %s" % (nm_, want))
+        else:
+            r.fail(m, m.node, "Output.%s is %s" % (nm_, got), "Output.%s is not the threshold `verbosity >= %s` (%s): at a higher level the handler and the components are told the output is not %s "
+                   "while text flagged %s is still written" % (nm_, want, got, nm_[3:].replace("_", " "), want))
+
+    # ---------------------------------------------------------------- R20
+    r = ctx.rule("C09-R20", "OWNER", "'--version on any command': every command object is wired to the application it belongs to (that is where its dispatcher, and with it the "
+                 "version / help listeners, come from) - each construction of a Command inside the package passes the application on", reference=2)
+    cmd18 = ctx.cls("clikit.api.command.command.Command")
+    cinit = cmd18.methods.get("__init__")
+    ctx.require(cinit is not None and "application" in cinit.params, "Command.__init__ has no application parameter")
+    pos = [a for a in cinit.params if a != "self"].index("application")
+    n20 = 0
+    for fn in p.all_functions():
+        for c in q.calls(fn):
+            is_ctor = (isinstance(c.func, ast.Name) and c.func.id == "Command" and fn.module.imports.get("Command", (None,))[0] is not None) or \
+                      (isinstance(c.func, ast.Name) and c.func.id == "Command" and fn.module is cmd18.module) or \
+                      (isinstance(c.func, ast.Attribute) and c.func.attr == "__class__" and isinstance(c.func.value, ast.Name) and c.func.value.id == "self" and fn.cls is cmd18)
+            if not is_ctor:
+                continue
+            n20 += 1
+            a = c.args[pos] if pos < len(c.args) else next((k.value for k in c.keywords if k.arg == "application"), None)
+            if a is not None and not (isinstance(a, ast.Constant) and a.value is None):
+                r.ok("%s: %s receives the application" % (fn.short, norm(c)[:50]))
+            else:
+                r.fail(fn, c, "%s without the application" % norm(c)[:60], "%s builds a command without handing it the application: the command has no dispatcher of its own, so the listeners that print the "
+                       "version / the help page are not consulted for it - '-V' on that command runs its handler" % fn.short)
+    ctx.require(n20 >= 1, "no construction of a Command found in the package")
+
     return ctx.results
